@@ -132,6 +132,16 @@ def main(argv=None):
     if not obs:
         print(f"CHECKER-ERROR property={pid} zero obligations generated")
         return 3
+    # ---- assumption A3: primitive contracts validated against the callables registered in NumpyBackend
+    prim_fail = []
+    prim_n = 0
+    if getattr(prop, "USES_PRIMITIVES", True):
+        from . import primcheck
+        try:
+            prim_n, prim_fail = primcheck.run()
+        except Exception as e:  # noqa
+            print(f"CHECKER-ERROR property={pid} primitive-contract validation crashed: {type(e).__name__}: {e}")
+            return 3
     global _OBS
     _OBS = obs + canaries
     n = len(_OBS)
@@ -177,7 +187,15 @@ def main(argv=None):
         path = write_replay(pid, ob, v)
         wit = v.get("witness") or {}
         tail = "" if wit.get("native_fails") or wit.get("replayable") else " no-failing-input-found"
-        print(f"VIOLATION property={pid} replay={path} obligation={ob.name} :: {v['detail'][:300]}{tail}")
+        print(f"VIOLATION property={pid} replay={path} obligation={ob.name} :: {v['detail'][:160]!r}{tail}")
+        rc = 1
+    if prim_fail:
+        os.makedirs(os.path.join(REPLAY_DIR, pid), exist_ok=True)
+        path = os.path.join(REPLAY_DIR, pid, "primitive-contract.json")
+        with open(path, "w") as f:
+            json.dump(dict(property=pid, obligation="A3/primitive-contracts", mismatches=[list(x) for x in prim_fail],
+                           note="a callable registered in NumpyBackend disagrees with the primitive contract the proofs rely on"), f, indent=1)
+        print(f"VIOLATION property={pid} replay={os.path.relpath(path, ROOT)} obligation=A3/primitive-contracts :: {prim_fail[0]}")
         rc = 1
     if rc == 0:
         for ob, v in undecided:
@@ -195,11 +213,11 @@ def main(argv=None):
           f"violations={len(violations)} undecided={len(undecided)} bounded-standins={sum(1 for o in obs if o.bounded)} "
           f"canaries={len(canaries)}/{len(canaries) - len(canary_fail)} refuted  wall={wall:.1f}s")
     if not args.no_evidence and not args.only:
-        write_evidence(pid, args.tier, seed, prop, obs, verdicts, canaries, cverdicts, known_hits, violations, undecided, wall)
+        write_evidence(pid, args.tier, seed, prop, obs, verdicts, canaries, cverdicts, known_hits, violations, undecided, wall, prim_n)
     return rc
 
 
-def write_evidence(pid, tier, seed, prop, obs, verdicts, canaries, cverdicts, known_hits, violations, undecided, wall):
+def write_evidence(pid, tier, seed, prop, obs, verdicts, canaries, cverdicts, known_hits, violations, undecided, wall, prim_n=0):
     os.makedirs(EVIDENCE_DIR, exist_ok=True)
     proof_obs = [(o, v) for o, v in zip(obs, verdicts) if not o.bounded]
     bounded = [(o, v) for o, v in zip(obs, verdicts) if o.bounded]
@@ -239,6 +257,7 @@ def write_evidence(pid, tier, seed, prop, obs, verdicts, canaries, cverdicts, kn
         samples=samples,
         known_finding_obligations=sorted(known_names),
         explanation=getattr(prop, "EXPLANATION", ""),
+        primitive_contract_validation=dict(comparisons=prim_n, note="bounded validation of assumption A3 (not a proof of numpy)"),
     )
     if bounded:
         cov["bounded_standins"] = dict(
